@@ -63,6 +63,7 @@ fn gen_scenario(rng: &mut Rng, big_bodies: bool) -> Scenario {
         tag_base: 1,
         extras_pre: &gen::EXTRAS_PRE_REPLIES,
         extras_stream: &gen::EXTRAS_STREAM_REPLIES,
+        marker: None,
     };
     let built = gen::push_request(rng, &mut bytes, &spec);
     if big_bodies {
